@@ -12,11 +12,11 @@ theorem safe_doList {s : St} {j : Nat} (h : Safe s) (hj : j < s.nJob) (hpc : (s.
     Safe (doList s j) := by
   unfold doList
   apply safe_setJob h
-  · obtain ⟨h0, hn0, hn1, hn2, h1, h2, h3, h4, h5, h6, h7, h8, h9, h10, hrec, h11, h12, h13, h14⟩ := h.jobs j hj
+  · obtain ⟨h0, hn0, hn1, hn2, h1, h2, h3, h4, h5, h6, h7, h8, h9, h10, hrec, hnf, hrd, h11, h12, h13, h14⟩ := h.jobs j hj
     have hd := h.file_bound.2.2.2
     have hs := @mem_sortNat
     generalize s.job j = b at *
-    obtain ⟨kind, pc, payload, snap, inputs, trivial, todoIn, out, edit, csnap, newVer, prev, prevZero, dlist, live, todoDel⟩ := b
+    obtain ⟨kind, pc, payload, snap, inputs, trivial, todoIn, out, edit, csnap, newVer, prev, prevZero, nfRead, dlist, live, todoDel⟩ := b
     simp only at hpc; subst hpc
     jobok_at
   · left; rfl
@@ -25,9 +25,9 @@ theorem safe_doPend {s : St} {j : Nat} (h : Safe s) (hj : j < s.nJob) (hpc : (s.
     Safe (doPend s j) := by
   unfold doPend
   apply safe_setJob h
-  · obtain ⟨h0, hn0, hn1, hn2, h1, h2, h3, h4, h5, h6, h7, h8, h9, h10, hrec, h11, h12, h13, h14⟩ := h.jobs j hj
+  · obtain ⟨h0, hn0, hn1, hn2, h1, h2, h3, h4, h5, h6, h7, h8, h9, h10, hrec, hnf, hrd, h11, h12, h13, h14⟩ := h.jobs j hj
     generalize s.job j = b at *
-    obtain ⟨kind, pc, payload, snap, inputs, trivial, todoIn, out, edit, csnap, newVer, prev, prevZero, dlist, live, todoDel⟩ := b
+    obtain ⟨kind, pc, payload, snap, inputs, trivial, todoIn, out, edit, csnap, newVer, prev, prevZero, nfRead, dlist, live, todoDel⟩ := b
     simp only at hpc; subst hpc
     jobok_at
   · left; rfl
@@ -36,9 +36,9 @@ theorem safe_doActive {s : St} {j : Nat} (h : Safe s) (hj : j < s.nJob) (hpc : (
     Safe (doActive s j) := by
   unfold doActive
   apply safe_setJob h
-  · obtain ⟨h0, hn0, hn1, hn2, h1, h2, h3, h4, h5, h6, h7, h8, h9, h10, hrec, h11, h12, h13, h14⟩ := h.jobs j hj
+  · obtain ⟨h0, hn0, hn1, hn2, h1, h2, h3, h4, h5, h6, h7, h8, h9, h10, hrec, hnf, hrd, h11, h12, h13, h14⟩ := h.jobs j hj
     generalize s.job j = b at *
-    obtain ⟨kind, pc, payload, snap, inputs, trivial, todoIn, out, edit, csnap, newVer, prev, prevZero, dlist, live, todoDel⟩ := b
+    obtain ⟨kind, pc, payload, snap, inputs, trivial, todoIn, out, edit, csnap, newVer, prev, prevZero, nfRead, dlist, live, todoDel⟩ := b
     simp only at hpc; subst hpc
     constructor <;>
       simp only [compactOnly, preAlloc, outPending, outOnDisk, inCommit, ownRange, csnapRange, editRange, delRange, postSwap,
@@ -50,9 +50,9 @@ theorem safe_doRollup {s : St} {j : Nat} (h : Safe s) (hj : j < s.nJob) (hpc : (
   unfold doRollup
   dsimp only
   apply safe_setJob h
-  · obtain ⟨h0, hn0, hn1, hn2, h1, h2, h3, h4, h5, h6, h7, h8, h9, h10, hrec, h11, h12, h13, h14⟩ := h.jobs j hj
+  · obtain ⟨h0, hn0, hn1, hn2, h1, h2, h3, h4, h5, h6, h7, h8, h9, h10, hrec, hnf, hrd, h11, h12, h13, h14⟩ := h.jobs j hj
     generalize s.job j = b at *
-    obtain ⟨kind, pc, payload, snap, inputs, trivial, todoIn, out, edit, csnap, newVer, prev, prevZero, dlist, live, todoDel⟩ := b
+    obtain ⟨kind, pc, payload, snap, inputs, trivial, todoIn, out, edit, csnap, newVer, prev, prevZero, nfRead, dlist, live, todoDel⟩ := b
     simp only at hpc; subst hpc
     constructor <;>
       simp only [compactOnly, preAlloc, outPending, outOnDisk, inCommit, ownRange, csnapRange, editRange, delRange, postSwap,
@@ -68,9 +68,9 @@ theorem safe_doEvict {s : St} {j : Nat} {f : Nat} {rest : List Nat} (h : Safe s)
   have hd : DeadR s f := hb0.deleting (by rcases hpc with hpc | hpc <;> rw [hpc] <;> rfl) f (by simp [htodo])
   have h1 : Safe (setPc s j .doEvicted) := by
     apply safe_setPc_plain h
-    obtain ⟨h0, hn0, hn1, hn2, h1, h2, h3, h4, h5, h6, h7, h8, h9, h10, hrec, h11, h12, h13, h14⟩ := hb0
+    obtain ⟨h0, hn0, hn1, hn2, h1, h2, h3, h4, h5, h6, h7, h8, h9, h10, hrec, hnf, hrd, h11, h12, h13, h14⟩ := hb0
     generalize s.job j = b at *
-    obtain ⟨kind, pc, payload, snap, inputs, trivial, todoIn, out, edit, csnap, newVer, prev, prevZero, dlist, live, todoDel⟩ := b
+    obtain ⟨kind, pc, payload, snap, inputs, trivial, todoIn, out, edit, csnap, newVer, prev, prevZero, nfRead, dlist, live, todoDel⟩ := b
     simp only at hpc
     rcases hpc with hpc | hpc <;> subst hpc <;> jobok_at
   exact safe_evict h1 (by simpa [setPc, St.setJob, Dead] using hd.1)
@@ -83,9 +83,9 @@ theorem safe_doRemove {s : St} {j : Nat} {f : Nat} {rest : List Nat} (h : Safe s
   have hd : DeadR s f := hb0.deleting (by rw [hpc]; rfl) f (by simp [htodo])
   have h1 : Safe (s.setJob j { s.job j with todoDel := rest, pc := .doRemoved }) := by
     apply safe_setJob h
-    · obtain ⟨h0, hn0, hn1, hn2, h1, h2, h3, h4, h5, h6, h7, h8, h9, h10, hrec, h11, h12, h13, h14⟩ := hb0
+    · obtain ⟨h0, hn0, hn1, hn2, h1, h2, h3, h4, h5, h6, h7, h8, h9, h10, hrec, hnf, hrd, h11, h12, h13, h14⟩ := hb0
       generalize s.job j = b at *
-      obtain ⟨kind, pc, payload, snap, inputs, trivial, todoIn, out, edit, csnap, newVer, prev, prevZero, dlist, live, todoDel⟩ := b
+      obtain ⟨kind, pc, payload, snap, inputs, trivial, todoIn, out, edit, csnap, newVer, prev, prevZero, nfRead, dlist, live, todoDel⟩ := b
       simp only at hpc htodo; subst hpc htodo
       jobok_at
     · left; rfl
@@ -96,23 +96,24 @@ theorem safe_jFinish {s : St} {j : Nat} (h : Safe s) (hj : j < s.nJob)
   unfold jFinish
   apply safe_setCompacting
   apply safe_setPc_plain h
-  obtain ⟨h0, hn0, hn1, hn2, h1, h2, h3, h4, h5, h6, h7, h8, h9, h10, hrec, h11, h12, h13, h14⟩ := h.jobs j hj
+  obtain ⟨h0, hn0, hn1, hn2, h1, h2, h3, h4, h5, h6, h7, h8, h9, h10, hrec, hnf, hrd, h11, h12, h13, h14⟩ := h.jobs j hj
   generalize s.job j = b at *
-  obtain ⟨kind, pc, payload, snap, inputs, trivial, todoIn, out, edit, csnap, newVer, prev, prevZero, dlist, live, todoDel⟩ := b
+  obtain ⟨kind, pc, payload, snap, inputs, trivial, todoIn, out, edit, csnap, newVer, prev, prevZero, nfRead, dlist, live, todoDel⟩ := b
   simp only at hpc
   rcases hpc with hpc | hpc <;> subst hpc <;> jobok_at
 
 theorem safe_startDelObs {s : St} {j : Nat} (h : Safe s) (hj : j < s.nJob) (hpc : (s.job j).pc = .start)
     (hk : (s.job j).kind = .delObs) : Safe (setPc s j .doStart) := by
   apply safe_setPc_plain h
-  obtain ⟨h0, hn0, hn1, hn2, h1, h2, h3, h4, h5, h6, h7, h8, h9, h10, hrec, h11, h12, h13, h14⟩ := h.jobs j hj
+  obtain ⟨h0, hn0, hn1, hn2, h1, h2, h3, h4, h5, h6, h7, h8, h9, h10, hrec, hnf, hrd, h11, h12, h13, h14⟩ := h.jobs j hj
   generalize s.job j = b at *
-  obtain ⟨kind, pc, payload, snap, inputs, trivial, todoIn, out, edit, csnap, newVer, prev, prevZero, dlist, live, todoDel⟩ := b
+  obtain ⟨kind, pc, payload, snap, inputs, trivial, todoIn, out, edit, csnap, newVer, prev, prevZero, nfRead, dlist, live, todoDel⟩ := b
   simp only at hpc hk; subst hpc hk
   jobok_at
 
 
-theorem safe_jstep {cfg : Cfg} {s s' : St} {j : Nat} (hr : cfg.recheck = true) (hcl : cfg.cloneLocked = true) (h : Safe s)
+theorem safe_jstep {cfg : Cfg} {s s' : St} {j : Nat} (hr : cfg.recheck = true) (hcl : cfg.cloneLocked = true)
+    (hal : cfg.allocLocked = true) (h : Safe s)
     (hs : jstep cfg s j = some s') : Safe s' := by
   unfold jstep at hs
   split at hs
@@ -123,7 +124,7 @@ theorem safe_jstep {cfg : Cfg} {s s' : St} {j : Nat} (hr : cfg.recheck = true) (
   case h_1 hpc => -- start
     split at hs
     · split at hs
-      · cases hs; exact safe_jAlloc _ _ h hj (Or.inl ⟨hpc, by assumption⟩)
+      · next hg => cases hs; exact safe_jAlloc _ _ h hj (Or.inl ⟨hpc, by assumption⟩) (hg hal)
       · cases hs
     · split at hs
       · cases hs
@@ -134,7 +135,7 @@ theorem safe_jstep {cfg : Cfg} {s s' : St} {j : Nat} (hr : cfg.recheck = true) (
   case h_3 hpc => cases hs; exact safe_jRead h hj hpc
   case h_4 hpc =>
     split at hs
-    · cases hs; exact safe_jAlloc _ _ h hj (Or.inr hpc)
+    · next hg => cases hs; exact safe_jAlloc _ _ h hj (Or.inr hpc) (hg hal)
     · cases hs
   case h_5 hpc => cases hs; exact safe_jCreate h hj hpc
   case h_6 hpc =>
@@ -209,7 +210,8 @@ theorem reader_not_own {s : St} {i : Nat} (h : Safe s) (ho : (s.snap i).owner = 
   cases this
 
 /-- every atomic step of the model preserves `Safe` when removeVersion re-checks the refcount -/
-theorem safe_step {cfg : Cfg} {s s' : St} {a : Act} (hr : cfg.recheck = true) (hcl : cfg.cloneLocked = true) (h : Safe s)
+theorem safe_step {cfg : Cfg} {s s' : St} {a : Act} (hr : cfg.recheck = true) (hcl : cfg.cloneLocked = true)
+    (hal : cfg.allocLocked = true) (h : Safe s)
     (hs : step cfg s a = some s') : Safe s' := by
   cases a with
   | acquire => simp only [step] at hs; cases hs; exact safe_acquire none h
@@ -261,7 +263,7 @@ theorem safe_step {cfg : Cfg} {s s' : St} {a : Act} (hr : cfg.recheck = true) (h
       exact safe_rel h (readerSnap_spec hrs).1 (by rw [ho]; simp)
     next => cases hs
   | spawn k p => simp only [step] at hs; cases hs; exact safe_spawn k p h
-  | jstep j => exact safe_jstep hr hcl h hs
+  | jstep j => exact safe_jstep hr hcl hal h hs
   | cleanup fs =>
     simp only [step] at hs
     split at hs
@@ -269,9 +271,9 @@ theorem safe_step {cfg : Cfg} {s s' : St} {a : Act} (hr : cfg.recheck = true) (h
     next => cases hs
 
 theorem safe_reachable {cfg : Cfg} {v0 f0 : Nat} {s : St} (hr : cfg.recheck = true) (hcl : cfg.cloneLocked = true)
-    (h : Reachable cfg v0 f0 s) : Safe s := by
+    (hal : cfg.allocLocked = true) (h : Reachable cfg v0 f0 s) : Safe s := by
   induction h with
   | init => exact safe_init v0 f0
-  | step a _ hs ih => exact safe_step hr hcl ih hs
+  | step a _ hs ih => exact safe_step hr hcl hal ih hs
 
 end LinVerif.Lemmas.C02
